@@ -171,7 +171,7 @@ func genBinaryOp(m *method) ([]*leanDef, error) {
 				stmts := append(append(append([]ast.Stmt{}, prefix...), c.Body...), tail...)
 				body := tr.Stmts(stmts, env, func(xlate.Env) string { panic("fell off the end of BinaryOp") })
 				name := fmt.Sprintf("%s_BinaryOp_%s", rn, ty)
-				text := fmt.Sprintf("@[ugo_cells] def %s (F : Go.FloatOps) (S : Go.ObjOps) (tok : Go.Tok) (o : %s) (v : %s) : Go.Res Go.Val := do\n%s\n",
+				text := fmt.Sprintf("def %s (F : Go.FloatOps) (S : Go.ObjOps) (tok : Go.Tok) (o : %s) (v : %s) : Go.Res Go.Val := do\n%s\n",
 					name, xlate.LeanTy(rty), xlate.LeanTy(ty), indentS(body, 2))
 				defs = append(defs, &leanDef{name: name, text: text, calls: xlate.SortedKeys(tr.Calls)})
 			}
@@ -188,7 +188,7 @@ func genBinaryOp(m *method) ([]*leanDef, error) {
 		env.Bind(valVar, "right", xlate.TVal)
 		body := tr.Stmts(m.decl.Body.List, env, func(xlate.Env) string { panic("fell off the end of BinaryOp") })
 		name := fmt.Sprintf("%s_BinaryOp", rn)
-		text := fmt.Sprintf("@[ugo_cells] def %s (F : Go.FloatOps) (S : Go.ObjOps) (tok : Go.Tok) (o : %s) (right : Go.Val) : Go.Res Go.Val := do\n%s\n",
+		text := fmt.Sprintf("def %s (F : Go.FloatOps) (S : Go.ObjOps) (tok : Go.Tok) (o : %s) (right : Go.Val) : Go.Res Go.Val := do\n%s\n",
 			name, xlate.LeanTy(rty), indentS(body, 2))
 		calls := append(xlate.SortedKeys(tr.Calls), callNames...)
 		defs = append(defs, &leanDef{name: name, text: text, calls: calls})
@@ -233,7 +233,7 @@ func genEqual(m *method) (*leanDef, error) {
 	var text string
 	err := xlate.Catch(func() {
 		body := tr.Stmts(m.decl.Body.List, env, func(xlate.Env) string { panic("fell off the end of Equal") })
-		text = fmt.Sprintf("@[ugo_cells] def %s_Equal (F : Go.FloatOps) (o : %s) (right : Go.Val) : Bool :=\n%s\n",
+		text = fmt.Sprintf("def %s_Equal (F : Go.FloatOps) (o : %s) (right : Go.Val) : Bool :=\n%s\n",
 			rn, xlate.LeanTy(rty), indentS(body, 2))
 	})
 	return &leanDef{name: rn + "_Equal", text: text}, err
@@ -305,6 +305,26 @@ func genNumeric(repo string) (string, error) {
 	sort.Strings(names)
 	fmt.Fprintf(&sb, "def binaryOpCells : List String := [%s]\n", quoteList(names))
 	sb.WriteString("end UgoVerif.Gen\n")
+	numericDefNames = append([]string{}, names...)
+	for _, tn := range types {
+		numericDefNames = append(numericDefNames, recvName(tn)+"_Equal")
+	}
+	return sb.String(), nil
+}
+
+var numericDefNames []string
+
+// genNumericSimp tags every regenerated cell with the simp set used by the proofs
+// (kept out of Numeric.lean so that the native driver stays core-only).
+func genNumericSimp(repo string) (string, error) {
+	if numericDefNames == nil {
+		return "", fmt.Errorf("Numeric.lean was not generated")
+	}
+	var sb strings.Builder
+	sb.WriteString("-- GENERATED by goextract — DO NOT EDIT.\nimport UgoVerif.Gen.Numeric\nimport UgoVerif.Go.Attr\nopen UgoVerif.Gen\n")
+	for _, n := range numericDefNames {
+		fmt.Fprintf(&sb, "attribute [ugo_cells] %s\n", n)
+	}
 	return sb.String(), nil
 }
 
